@@ -433,8 +433,15 @@ structure Parsed (α : Type) where
   flat : List α
   header : List (String × HVal)
 
+/-- `int(text)` for a plain run of decimal digits -/
+def digitsVal : List Char → Nat → Option Nat
+  | [], acc => some acc
+  | c :: cs, acc => if c.isDigit then digitsVal cs (acc * 10 + (c.toNat - 48)) else none
+
+def parseNat (s : String) : Option Nat := if s.toList.isEmpty then none else digitsVal s.toList 0
+
 /-- `int(line.split()[-1])` of the data line -/
-def dataWidth (ws : List String) : Option Nat := ws.getLast?.bind String.toNat?
+def dataWidth (ws : List String) : Option Nat := ws.getLast?.bind parseNat
 
 def isBinary (ws : List String) : Bool := (ws.headD "").toLower == "binary"
 
@@ -560,13 +567,13 @@ def refReaderBody {α} [DecidableEq α] (c : Codec α) (F : OvfFile α) (ws : Li
     (base step : List Rat) (nodes : List Nat) (vd : Nat) (mu : String) : M (Content α) :=
   match F.body, ws with
   | .bin bytes, ["Binary", ww] =>
-    if bytes.length < (ww.toNat?.getD 0) then .error .value
-    else if c.dec true (ww.toNat?.getD 0) (bytes.take (ww.toNat?.getD 0)) ≠ c.magic (ww.toNat?.getD 0) then
+    if bytes.length < ((parseNat ww).getD 0) then .error .value
+    else if c.dec true ((parseNat ww).getD 0) (bytes.take ((parseNat ww).getD 0)) ≠ c.magic ((parseNat ww).getD 0) then
       .error .value
-    else if (fromfile c true (ww.toNat?.getD 0) (bytes.drop (ww.toNat?.getD 0)) (natProd nodes * vd)).length
+    else if (fromfile c true ((parseNat ww).getD 0) (bytes.drop ((parseNat ww).getD 0)) (natProd nodes * vd)).length
         ≠ natProd nodes * vd then .error .value
     else .ok { base := base, step := step, nodes := nodes, vd := vd, meshunit := mu,
-               values := fromfile c true (ww.toNat?.getD 0) (bytes.drop (ww.toNat?.getD 0)) (natProd nodes * vd) }
+               values := fromfile c true ((parseNat ww).getD 0) (bytes.drop ((parseNat ww).getD 0)) (natProd nodes * vd) }
   | .text rows _, ["Text"] =>
     if rows.flatten.length ≠ natProd nodes * vd then .error .value
     else .ok { base := base, step := step, nodes := nodes, vd := vd, meshunit := mu, values := rows.flatten }
